@@ -6,13 +6,14 @@ from ..term import Terms, show, alts, is_call, walk, match, V, C, TRY
 from ..guards import guards, strip_not
 from ..rules_e2 import run_e2
 from ..rules_contract import run_contracts
-from ..rules_dep import run_dep
+from ..rules_dep import run_dep, run_err_both
 
 SELF, SPAN = ("param", 1, "self"), ("param", 2, "span")
 
 
 def run(ctx, rep):
     run_dep(ctx, rep, "C08")
+    run_err_both(ctx, rep, "C08")
     prog = ctx.prog("Q")
     rep.notes.append("Does not decide equality with wide-integer reference arithmetic in general.")
     pipeline(rep, prog)
